@@ -89,16 +89,24 @@ static void *sim_malloc(size_t n) {
     st.allocs++; st.bytes_live += n;
     return u;
 }
+#include <execinfo.h>
+// where the damaged block is being freed (its owner): raw return addresses, resolved by the parent (ASLR is off)
+static void freeSiteFrames() {
+    void *bt[24];
+    int n = backtrace(bt, 24);
+    for (int i = 0; i < n; i++) fprintf(stderr, "SIMAFRAME %p\n", bt[i]);
+}
 static void sim_free(void *u) {
     std::lock_guard<std::mutex> g(*amu);
     Hdr *h = (Hdr *)u - 1;
     if (h->magic != 0xA110Cu) {
         st.redzone_errors++;
         fprintf(stderr, "SIMALLOC: invalid or double free of %p\n", u);
+        freeSiteFrames();
         return;
     }
     unsigned char *rz = (unsigned char *)u + h->req;
-    for (size_t i = 0; i < RZ; i++) if (rz[i] != 0xFD) { st.redzone_errors++; fprintf(stderr, "SIMALLOC: red zone overwritten after %p (+%zu)\n", u, i); break; }
+    for (size_t i = 0; i < RZ; i++) if (rz[i] != 0xFD) { st.redzone_errors++; fprintf(stderr, "SIMALLOC: red zone overwritten after %p (+%zu)\n", u, i); freeSiteFrames(); break; }
     st.frees++; st.bytes_live -= h->req;
     memset(u, 0xDD, h->req);
     h->magic = 0xF4EEu;
